@@ -1020,6 +1020,9 @@ WITNESSES = [
     ("SELECT x.a AS xa FROM x JOIN (SELECT DISTINCT a FROM y) AS y ON x.a = y.a", {"x": [[1, 1]], "y": [[2, 1]], "z": []}),
     ("SELECT x.a AS xa FROM x CROSS JOIN (SELECT y.b AS b FROM y LIMIT 1) AS y", {"x": [[1, 1], [2, 2]], "y": [], "z": []}),
     ("SELECT x.a AS xa FROM x CROSS JOIN (SELECT COUNT(*) AS c FROM y GROUP BY y.a) AS y", {"x": [[1, 1]], "y": [[1, 1], [2, 2]], "z": []}),
+    ("SELECT x.a AS xa FROM x CROSS JOIN (SELECT y.a AS a, COUNT(*) AS c FROM y GROUP BY y.a) AS y", {"x": [[1, 1]], "y": [[1, 1], [2, 2]], "z": []}),
+    ("SELECT x.a AS xa FROM x CROSS JOIN (SELECT y.a AS a, y.b AS b, MAX(y.b) AS m FROM y GROUP BY y.a, y.b) AS y", {"x": [[1, 1]], "y": [[1, 1], [2, 2], [2, 3]], "z": []}),
+    ("SELECT x.a AS xa FROM x, (SELECT SUM(y.b) AS s FROM y GROUP BY y.a) AS y", {"x": [[1, 1]], "y": [[1, 1], [2, 2]], "z": []}),
     ("SELECT x.a AS xa FROM x CROSS JOIN (SELECT 1 AS c WHERE FALSE) AS y", {"x": [[1, 1]], "y": [], "z": []}),
     ("SELECT x.a AS xa FROM x CROSS JOIN (SELECT MAX(y.a) AS c FROM y HAVING MAX(y.a) > 5) AS y", {"x": [[1, 1]], "y": [[1, 1]], "z": []}),
     ("SELECT x.a AS xa, y.a AS ya FROM x LEFT JOIN y ON x.a = y.a JOIN z ON y.a = z.a", {"x": [[1, 1]], "y": [], "z": [[1, 1]]}),
